@@ -92,6 +92,8 @@ PATHS = [
     ("destr-for-member-sets", "def acc = []; for [p, q] in values <*a = {S}, b = {S2} *> do append(acc, [p, q]) end; acc"),
     ("direct-join-map", "join({M}, '|')"), ("direct-first-last-map", "[first({M}), last({M})]"), ("render-list-of-map", "string(list({M}))"),
     ("direct-reverse-map", "string(reverse({M}))"), ("direct-enumerate-map", "string(enumerate({M}))"), ("direct-unique-map", "string(unique({M}))"),
+    ("hidden-members", "[x->_h for x in {S}]"), ("hidden-members-for", "def acc = []; for x in {S} do append(acc, x->_h) end; acc"),
+    ("hidden-members-list", "[x->_h for x in list({S})]"), ("hidden-members-sorted", "[x->_h for x in sorted({S})]"),
     ("type-checks", "[x is string for x in {S}]"), ("contains", "[contains({S}, 'a'), 'a' in {M}]"), ("if-empty", "[{S} is empty, {M} is not empty]"),
 ]
 
@@ -113,10 +115,13 @@ NUMBOOL_ELEMS = ["TRUE", "1", "FALSE", "0", "2", "-1", "3"]
 STRPAT_ELEMS = ["'ab'", "//ab//", "'1'", "'TRUE'", "//1//", "//TRUE//", "'a'", "//z//"]
 PUN_PAIRS = {"pun-numbool": [("TRUE", "1"), ("FALSE", "0")], "pun-strpat": [("'ab'", "//ab//"), ("'1'", "//1//"), ("'TRUE'", "//TRUE//")],
              "pun-mixed": [("TRUE", "1"), ("FALSE", "0"), ("'ab'", "//ab//"), ("[1]", "[TRUE]"), ("'1'", "//1//")]}
-POOLS = {"str": STR_ELEMS, "mix": MIX_ELEMS, "dec": DEC_ELEMS, "set": SET_ELEMS, "list": LIST_ELEMS,
+# objects whose text is the same (hidden members differ): still a definite enumeration order
+OBJ_ELEMS = ["<*a = 1, _h = 'p'*>", "<*a = 1, _h = 'q'*>", "<*a = 1, _h = 'r'*>", "<*a = 1, _h = 1*>", "<*a = 1, _h = 2*>", "<*a = 2, _h = 'p'*>", "<*a = 1*>",
+             "<*a = 1, _h = 'p', _g = 'zz'*>", "<*_h = 'only hidden'*>", "<*_h = 'other hidden'*>", "<*a = 1, _h = [1]*>", "<*a = 1, _h = [1.0, 2]*>"]
+POOLS = {"objs": OBJ_ELEMS, "str": STR_ELEMS, "mix": MIX_ELEMS, "dec": DEC_ELEMS, "set": SET_ELEMS, "list": LIST_ELEMS,
          "pun-numbool": NUMBOOL_ELEMS, "pun-strpat": STRPAT_ELEMS, "pun-mixed": PUN_ELEMS}
 # every kind of pool is used in turn (string-like ones first: those are the ones a hash seed can reorder)
-KIND_CYCLE = ["pun-strpat", "str", "set", "pun-mixed", "list", "pun-numbool", "mix", "dec"]
+KIND_CYCLE = ["pun-strpat", "str", "objs", "set", "pun-mixed", "list", "pun-numbool", "mix", "dec"]
 
 
 NUMEQ_VALS = ["1", "1.0", "2", "2.0", "0", "0.0", "[1]", "[1.0]", "[[2]]", "[[2.0]]"]
